@@ -841,6 +841,9 @@ impl gen::CELVisitorCompat<'_> for Parser {
         let token = ctx.tok.as_ref().expect("Has to have int!");
         let val = match if let Some(string) = string.strip_prefix("0x") {
             i64::from_str_radix(string, 16)
+        } else if let Some(string) = string.strip_prefix("-0x") {
+            // `from_str_radix` wants the sign directly in front of the digits
+            i64::from_str_radix(&format!("-{string}"), 16)
         } else {
             string.parse::<i64>()
         } {
